@@ -6,7 +6,8 @@ From Grex Require Import Proofs.Lang Proofs.Spec Proofs.PrintShape Proofs.Constr
   Proofs.PropsGlue.
 From Grex Require Import Engine.Syntax Engine.Parse Engine.Sem Engine.Exec Engine.Prio.
 From Coq Require Import Sorted.
-From Grex Require Import Proofs.PrioSound Proofs.PrioSearch.
+From Grex Require Import Proofs.PrioSound Proofs.PrioSearch Model.SelfCheck Proofs.SelfCheckProps.
+From Grex Require Proofs.PrioK2.
 From Grex Require Import Proofs.PrintParseNum Proofs.PrintParseDefs Proofs.PrintParseXTok
   Proofs.SearchProps Proofs.PropsGlueE2E.
 
@@ -287,6 +288,48 @@ Theorem C08_find_first_prefix_free :
   find_first lit_b cls_b range_b t (top_rast c e) = Some (0%nat, length t).
 Proof. exact find_first_prefix_free. Qed.
 
+(* EVERY failure of the reported span is in the class of known finding K2 (Proofs/PrioK2.v): if
+   `find` on a test case does not report the whole test case (no $), it reports (0, j0) with j0 <
+   |t| and the prefix of length j0 is itself in the language of the expression -- "a shorter test
+   case (or a generalisation of one) that is its prefix".  No decidability of the language needed. *)
+Theorem C08_find_first_not_whole_is_K2 :
+  forall (lit cls : cp -> cp -> Prop) (lit_b cls_b : cp -> cp -> bool)
+         (range_b : cp -> cp -> cp -> bool),
+  (forall c x, lit_b c x = true <-> lit c x) ->
+  (forall l x, cls_b l x = true <-> cls l x) ->
+  (forall lo hi x,
+     range_b lo hi x = true <-> exists c, (lo <= c)%N /\ (c <= hi)%N /\ lit c x) ->
+  forall c (gap : Prop) (e : expr) (t : str),
+  printable c -> (gap -> forall c0 x, surrogate c0 -> ~ lit c0 x) ->
+  wf_print_gen gap e -> f_no_end c = true ->
+  L_expr lit cls e t ->
+  find_first lit_b cls_b range_b t (top_rast c e) <> Some (0%nat, length t) ->
+  exists j0 : nat,
+    find_first lit_b cls_b range_b t (top_rast c e) = Some (0%nat, j0) /\
+    (j0 < length t)%nat /\
+    proper_prefix (firstn j0 t) t /\ L_expr lit cls e (firstn j0 t).
+Proof. exact PrioK2.find_first_not_whole_K2_span. Qed.
+
+(* ... so: the whole test case is reported, or a proper prefix of it is in the language *)
+Theorem C08_find_first_whole_or_K2 :
+  forall (lit cls : cp -> cp -> Prop) (lit_b cls_b : cp -> cp -> bool)
+         (range_b : cp -> cp -> cp -> bool),
+  (forall c x, lit_b c x = true <-> lit c x) ->
+  (forall l x, cls_b l x = true <-> cls l x) ->
+  (forall lo hi x,
+     range_b lo hi x = true <-> exists c, (lo <= c)%N /\ (c <= hi)%N /\ lit c x) ->
+  forall c (gap : Prop) (e : expr) (t : str),
+  printable c -> (gap -> forall c0 x, surrogate c0 -> ~ lit c0 x) ->
+  wf_print_gen gap e -> f_no_end c = true ->
+  L_expr lit cls e t ->
+  ((forall p, proper_prefix p t -> ~ L_expr lit cls e p) ->
+   find_first lit_b cls_b range_b t (top_rast c e) = Some (0%nat, length t)) /\
+  (find_first lit_b cls_b range_b t (top_rast c e) <> Some (0%nat, length t) ->
+   exists p, proper_prefix p t /\ L_expr lit cls e p) /\
+  (find_first lit_b cls_b range_b t (top_rast c e) = Some (0%nat, length t) \/
+   (exists p, proper_prefix p t /\ L_expr lit cls e p)).
+Proof. exact PrioK2.find_first_whole_iff. Qed.
+
 (* priority laws: an alternation reports its FIRST alternative that matches ... *)
 Theorem C08_first_end_alt :
   forall (lit_b cls_b : cp -> cp -> bool) (range_b : cp -> cp -> cp -> bool) h a b i,
@@ -324,6 +367,32 @@ Theorem C08_alternation_shorter_first :
   /\ first_end lit_cs cls_b range_cs t (alts (ws1 ++ w :: ws2)) 0 <> Some (length t).
 Proof. exact first_end_alts_shorter. Qed.
 
+(* ---------------------------------------------------------------------------------------- *)
+(* THE SELF-CHECK INSIDE THE MODEL (Model/SelfCheck.v): the outcome [sc], an input of the theorems
+   above, computed as src/regexp.rs computes it -- find_iter(tc).count() == 1 for every test case,
+   on the candidate compiled without flags -- from the modelled semantics of the regex crate.
+   build_closed has no input besides configuration, oracle data and test cases. *)
+
+(* whatever build_closed returns is  build ... sc ...  for the computed outcome sc, so every theorem
+   of this file (all of them quantify over every sc) applies to it *)
+Theorem C08_selfcheck_computed : forall isd is_ws c db ws s,
+  build_closed isd is_ws c db ws = Some s ->
+  exists sc, build isd c db sc ws = Some s
+    /\ (f_no_start c && f_no_end c = true ->
+        sc_ref isd is_ws c (grapheme_clusters c db (normalise c db ws)) (normalise c db ws) = Some sc).
+Proof. exact build_closed_build. Qed.
+
+(* with an anchor in place the self-check is not consulted *)
+Theorem C08_selfcheck_only_without_anchors : forall isd is_ws c db ws sc,
+  f_no_start c && f_no_end c = false ->
+  build_closed isd is_ws c db ws = build isd c db sc ws.
+Proof. exact build_closed_anchored. Qed.
+
+(* `for _ in 1..test_cases.len()`: with one test case the minimised candidate is never accepted *)
+Theorem C08_selfcheck_single : forall isd is_ws c cls tcs,
+  (length tcs <= 1)%nat -> sc_ref isd is_ws c cls tcs <> Some SCPass1.
+Proof. exact sc_ref_single. Qed.
+
 Print Assumptions C08_anchors_syntax.
 Print Assumptions C08_body_invariant.
 Print Assumptions C08_language_invariant.
@@ -349,3 +418,8 @@ Print Assumptions C08_first_end_alt.
 Print Assumptions C08_alternation_first_prefix.
 Print Assumptions C08_alternation_sorted_whole.
 Print Assumptions C08_alternation_shorter_first.
+Print Assumptions C08_selfcheck_computed.
+Print Assumptions C08_selfcheck_only_without_anchors.
+Print Assumptions C08_selfcheck_single.
+Print Assumptions C08_find_first_not_whole_is_K2.
+Print Assumptions C08_find_first_whole_or_K2.
